@@ -418,6 +418,7 @@ type SpecFile struct {
 	Pure      []string // pure observer function keys
 	Opaque    []string // spec functions kept uninterpreted in VCs (definition available as an axiom)
 	Ignore    []string
+	Observer  []string
 	Uses      []string
 }
 
@@ -436,7 +437,7 @@ func splitProps(s string) (string, []string) {
 	return strings.TrimSpace(s[:m[0]]), ps
 }
 
-var keywords = map[string]bool{"opaque": true, "use": true, "func": true, "extern": true, "spec": true, "axiom": true, "lemma": true, "pure": true, "ignore": true,
+var keywords = map[string]bool{"opaque": true, "use": true, "func": true, "extern": true, "spec": true, "axiom": true, "lemma": true, "pure": true, "ignore": true, "observer": true,
 	"requires": true, "ensures": true, "modifies": true, "loop": true, "assert": true, "option": true, "import": true, "uses": true, "let": true, "package": true}
 
 // ParseSpecFile reads //@ lines. pkgPath is the import path the file belongs to ("" for lib files).
@@ -534,6 +535,9 @@ func ParseSpecFile(path, pkgPath string) (*SpecFile, error) {
 			cur = nil
 		case "ignore":
 			sf.Ignore = append(sf.Ignore, strings.TrimSpace(strings.TrimPrefix(rest, "func")))
+			cur = nil
+		case "observer":
+			sf.Observer = append(sf.Observer, strings.TrimSpace(strings.TrimPrefix(rest, "func")))
 			cur = nil
 		case "spec":
 			// spec func name(a T, b U) R = expr     |  spec func name(a T) R   (uninterpreted)
@@ -661,9 +665,18 @@ func ParseSpecFile(path, pkgPath string) (*SpecFile, error) {
 			if cur == nil {
 				return nil, fmt.Errorf("%s: assert outside func", where)
 			}
+			if mr := regexp.MustCompile(`^at\s+return\s*:\s*(.*)$`).FindStringSubmatch(rest); mr != nil {
+				// assert at return: expr   (checked at every return statement; locals and results visible)
+				c, err := mkClause(mr[1], ln.no)
+				if err != nil {
+					return nil, err
+				}
+				cur.Asserts = append(cur.Asserts, &CallAssert{Callee: "$return", Clause: c})
+				break
+			}
 			m := regexp.MustCompile(`^(before|after)\s+call\s+(\S+?)(?:#(\d+))?\s*:\s*(.*)$`).FindStringSubmatch(rest)
 			if m == nil {
-				return nil, fmt.Errorf("%s: assert before|after call <callee>[#n]: expr", where)
+				return nil, fmt.Errorf("%s: assert before|after call <callee>[#n]: expr  |  assert at return: expr", where)
 			}
 			ord := 0
 			if m[3] != "" {
